@@ -13,11 +13,36 @@ TRUSTED = [
 ASSUME = ["one outstanding wait per timer, no second connect while one is pending, no TCP wait-for-write, objects not moved with operations outstanding (assert-only preconditions of the code)",
           "a refused connect parked in the 50 ms connect timer counts as already completed: close/cancel/destroy deliver connection_refused, once"]
 
+def idle_sets(lines):
+    """(kind, k) -> socket objects with no operation outstanding at that boundary, read off the
+    model's prediction of the base scenario (`marks on`): an operation is outstanding from the
+    call that names its handler until that handler is invoked; the peer of an accept counts as
+    busy; self-perpetuating loops keep their socket busy for good"""
+    out = {}; busy = {}   # obj -> set of handler tokens
+    for l in lines:
+        tk = l.split()
+        if not tk: continue
+        if tk[0] == "C" and "=>" in tk and len(tk) > 3 and "." in tk[2]:
+            i = tk.index("=>"); op = tk[2:i]
+            if " ".join(tk[i + 1:]) in ("skipped", "bad-op"): continue
+            obj, m = op[0].split(".", 1)
+            hs = [t for t in op[1:] if re.match(r"h\d+$", t)]
+            for h in hs: busy.setdefault(obj, set()).add(h)
+            if m in ("accept", "accept_ep") and len(op) > 1:
+                for h in hs: busy.setdefault(op[1], set()).add(h)
+            if m in ("read_loop", "write_loop"): busy.setdefault(obj, set()).add("loop")
+            if m == "destroy": busy.setdefault(obj, set()).add("gone")
+        elif tk[0] == "H":
+            for o in busy: busy[o].discard(tk[1])
+        elif tk[0] == "M" and len(tk) > 1:
+            out[(tk[1][0], int(tk[1][1:]))] = (set(o for o in busy if not busy[o]), set(o for o in busy if busy[o]))
+    return out
+
 def boundaries(bases, wd):
     """number of event boundaries of each base scenario, from the model (fallback: the implementation)"""
     counts = {}; advs = {}
     f = os.path.join(wd, "bases.scn")
-    with open(f, "w") as fh: fh.write("".join(bases))
+    with open(f, "w") as fh: fh.write("".join(b.replace("\n", "\nmarks on\n", 1) for b in bases))
     rc, out, err = vlib.run_cmd([vlib.simcheck_exe(), "kernel", f], timeout=300)
     if rc != 0 or not out.strip():
         exe, _ = vlib.build_harness("simdrv", SIMDRV_SRC)
@@ -33,14 +58,17 @@ def boundaries(bases, wd):
         counts[i] = min(n, 400)
         # clock steps: at most one per `K idle` line (the last ones fire nothing)
         advs[i] = min(sum(1 for l in lines if l.startswith("K idle")), 400)
+        IDLE[i] = idle_sets(lines)
     return counts, advs
+
+IDLE = {}    # base id -> {(kind, k): (idle objects, busy objects)}
 
 def gen(seed, tier):
     vlib.build_lean()
     wd = vlib.workdir("C04gen")
     bases = intervene.base_scenarios(seed, tier)
     counts, advs = boundaries(bases, wd)
-    out = list(bases) + intervene.matrix(bases, counts, seed, tier, advs)
+    out = list(bases) + intervene.matrix(bases, counts, seed, tier, advs, IDLE)
     try:
         for fn in os.listdir(wd): os.unlink(os.path.join(wd, fn))
         os.rmdir(wd)
